@@ -49,3 +49,28 @@ package core_domain
 //@ loop 1 invariant forall i int :: {(*m).FunctionCalls[i]} 0 <= i && i < #i && (*m).FunctionCalls[i].NodeName != "" ==>
 //@    CntNamed((*m).FunctionCalls, i) < len(calls) && CntNamed((*m).FunctionCalls, i) >= 0 && calls[CntNamed((*m).FunctionCalls, i)] == CallFull((*m).FunctionCalls[i])
 //@ loop 1 invariant CntNamed((*m).FunctionCalls, #i) >= 0
+
+// ---- C11: evidence predicates of the test-smell rules
+
+//@ spec IsAssertName(n string) bool := HasPrefix(Lower(n), "assert") || HasPrefix(Lower(n), "should") || HasPrefix(Lower(n), "check") ||
+//@    HasPrefix(Lower(n), "maynotbe") || HasPrefix(Lower(n), "is") || HasPrefix(Lower(n), "spec") || HasPrefix(Lower(n), "verify")
+
+//@ func CodeCall.HasAssertion
+//@ requires c != nil
+//@ ensures result <==> IsAssertName((*c).FunctionName)
+//@ loop 1 invariant forall j int :: 0 <= j && j < #i ==> !HasPrefix(Lower((*c).FunctionName), constants.ASSERTION_LIST[j])
+
+//@ func CodeCall.IsSystemOutput
+//@ requires c != nil
+//@ ensures result <==> ((*c).NodeName == "System.out" && ((*c).FunctionName == "println" || (*c).FunctionName == "printf" || (*c).FunctionName == "print"))
+
+//@ func CodeCall.IsThreadSleep
+//@ requires c != nil
+//@ ensures result <==> ((*c).FunctionName == "sleep" && (*c).NodeName == "Thread")
+
+//@ spec rec AnyTestAnn(as []CodeAnnotation, n int) bool := n <= 0 ? false : (AnyTestAnn(as, n - 1) || as[n - 1].Name == "Test" || as[n - 1].Name == "Ignore")
+
+//@ func CodeFunction.IsJunitTest
+//@ requires m != nil
+//@ ensures result <==> AnyTestAnn((*m).Annotations, len((*m).Annotations))
+//@ loop 1 invariant isTest <==> AnyTestAnn((*m).Annotations, #i)
